@@ -116,6 +116,29 @@ theorem rollover_invisible_string (ops : List (Op Char)) (hv : validS File.empty
   have b := string_refines_StringIO ms₂ ch₂ h₂ ops hv
   exact ⟨by rw [a.1, b.1], by rw [a.2.1, b.2.1], by rw [a.2.2, b.2.2]⟩
 
+/-! ### the other reading of "io.StringIO": the default constructor -/
+
+/-- against the DEFAULT `io.StringIO()` (`newline='\n'`: a line ends at LF only): SpooledStringIO returns the same for
+    every history whose line-cutting operations (readline, next, iteration, readlines) meet no lone CR in what is left
+    to read — texts with LF and CRLF line ends.  (`io.StringIO(newline='')`, which also ends a line at a lone CR as
+    `bytes.splitlines` and the codec reader do, is the reading under which the clause holds for every text:
+    `string_refines_StringIO`.) -/
+theorem string_refines_default_StringIO (ms ch : Nat) (hch : 0 < ch) (ops : List (Op Char))
+    (hv : validS File.empty ops = true) (hl : lfOnly File.empty ops = true) :
+    ((SStr.init ms ch).run ops).1 = (Spec.run lfSem File.empty ops).1 ∧
+    ((SStr.init ms ch).run ops).2.tell = (Spec.run lfSem File.empty ops).2.pos ∧
+    ((SStr.init ms ch).run ops).2.st.data = encode (Spec.run lfSem File.empty ops).2.data := by
+  rw [← Spec.run_lf File.empty ops hl]
+  exact string_refines_StringIO ms ch hch ops hv
+
+/-- and only there: on a lone CR SpooledStringIO ends the line (like io.StringIO(newline='')), the default
+    io.StringIO() does not -/
+theorem string_lone_cr_differs_from_default_StringIO :
+    ∃ (ops : List (Op Char)), validS File.empty ops = true ∧
+      ((SStr.init 100 3).run ops).1 = (Spec.run textSem File.empty ops).1 ∧
+      ((SStr.init 100 3).run ops).1 ≠ (Spec.run lfSem File.empty ops).1 :=
+  ⟨[.write ['a', '\r', 'b', '\n'], .seek 0, .readline], by decide +kernel, by decide +kernel, by decide +kernel⟩
+
 /-! ### the line loop of the repaired `readline()` -/
 
 /-- io.StringIO's line is the codec reader's line (`str.splitlines` boundaries), continued — when that one did not
@@ -307,6 +330,13 @@ example : validS File.empty demoT = true := by decide +kernel
 example : ((SStr.init 4 2).run demoT).1 = (Spec.run textSem File.empty demoT).1 := by decide +kernel
 example : ((SStr.init 4 2).run (demoT.take 3)).1.getLast? = some (.data ['a', Char.ofNat 0x0c, 'b', '\n']) := by
   decide +kernel
+
+/-- LF and CRLF line ends, multi-byte text, a seek into the middle of a CRLF: inside `lfOnly` -/
+def demoLF : List (Op Char) :=
+  [.write ['a', 'é', '\r', '\n', '日', '\n', '\n', 'x'], .seek 0, .readline, .next, .seek 3, .readline, .readlines,
+   .seek 1, .list, .seek 2, .drain, .getvalue]
+example : validS File.empty demoLF = true ∧ lfOnly File.empty demoLF = true := by decide +kernel
+example : ((SStr.init 4 2).run demoLF).1 = (Spec.run lfSem File.empty demoLF).1 := by decide +kernel
 
 def demoB : List (Op Byte) :=
   [.write [97, 10, 98], .seek 1, .readline, .write [99, 10], .seekEnd 2, .next, .len, .seek 0, .list, .tell]
